@@ -160,6 +160,31 @@ func runC06(c *kit.Ctx) {
 		}
 	}
 
+	// the server's "no more results at all" ends the scan whatever the state of the region scanner
+	if isd := c.Anchor("", "scanner", "isDone"); isd != nil {
+		var mrIf *ssa.If
+		kit.Instrs(isd, func(in ssa.Instruction) {
+			iff, ok := in.(*ssa.If)
+			if !ok || mrIf != nil {
+				return
+			}
+			if cmp, ok := kit.CanonCmp(iff.Cond, true); ok && kit.IsNilConst(cmp.Y) {
+				if _, f := kit.FieldRead(cmp.X); f != nil && f.Name() == "MoreResults" {
+					mrIf = iff
+				}
+			}
+		})
+		good := mrIf != nil
+		if good {
+			kit.Instrs(isd, func(in ssa.Instruction) {
+				if r, ok := in.(*ssa.Return); ok && !mrIf.Block().Dominates(r.Block()) {
+					good = false
+				}
+			})
+		}
+		c.Check(good, isd, "more-results-first", isd.Pos(), "every verdict of isDone is reached through the test of the response's more_results flag", "isDone can answer without looking at more_results: when the server ends the scan mid-region (more_results=false with the region scanner still open) the client keeps asking with a scanner id the server already released")
+	}
+
 	// ---- R3 ---------------------------------------------------------------
 	c.StartRule("R3", "open/continue request provenance", 3)
 	{
@@ -285,6 +310,52 @@ func runC06(c *kit.Ctx) {
 		})
 		if n == 0 {
 			c.Unk(upd, "next-start-row", upd.Pos(), "scanner.update no longer sets the next start row")
+		}
+		// the region scanner is recorded as open whenever the response carries a scanner id - presence, not value
+		for _, call := range kit.Calls(upd, kit.M("", "*scanner", "openRegionScanner")) {
+			present := false
+			for _, f := range kit.FactsAt(call.Block()) {
+				if cmp, ok := kit.CanonCmp(f.Cond, f.Pol); ok && cmp.Op == token.NEQ && kit.IsNilConst(cmp.Y) {
+					if _, fv := kit.FieldRead(cmp.X); fv != nil && fv.Name() == "ScannerId" {
+						present = true
+					}
+				}
+			}
+			c.Check(present, upd, "scanner-id-presence", call.Pos(), "a region scanner is recorded on the edge 'the response has a scanner_id field' (nil test)", "whether a region scanner was opened is decided from the value of scanner_id, not from its presence: a server-assigned id of 0 is not recorded, the region is re-opened from the same start row and its first batch is returned twice")
+		}
+		// attributes of a RegionInfo are shared and immutable: never written through
+		for _, fn := range p.Funcs {
+			if enclosingNamed(fn).Pkg == nil || enclosingNamed(fn).Pkg.Pkg.Path() != kit.Module {
+				continue
+			}
+			fromRegionAttr := func(v ssa.Value) bool {
+				for i := 0; i < 8; i++ {
+					switch x := kit.Strip(v).(type) {
+					case *ssa.Slice:
+						v = x.X
+						continue
+					case *ssa.Call:
+						n := kit.CalleeName(x)
+						return n == hrpcRI+"StartKey" || n == hrpcRI+"StopKey" || n == hrpcRI+"Name" || n == hrpcRI+"Table" || n == hrpcRI+"Namespace"
+					}
+					return false
+				}
+				return false
+			}
+			kit.Instrs(fn, func(in ssa.Instruction) {
+				switch x := in.(type) {
+				case *ssa.Store:
+					if ia, ok := x.Addr.(*ssa.IndexAddr); ok && fromRegionAttr(kit.Root(ia.X)) {
+						c.Bad(fn, "region-attribute-written", x.Pos(), "a byte of a RegionInfo attribute (start/stop key, name) is overwritten in place: the cached region descriptor is corrupted for every later request and scan", "")
+					}
+				case *ssa.Call:
+					if kit.CalleeName(x) == "builtin.append" && fromRegionAttr(kit.Root(x.Call.Args[0])) {
+						if sl, ok := kit.Root(x.Call.Args[0]).(*ssa.Slice); ok && sl.Max == nil {
+							c.Bad(fn, "region-attribute-appended-to", x.Pos(), "append onto a sub-slice of a RegionInfo attribute writes into its backing array: the cached region's key is modified in place (later scans compute their next start row from the corrupted key)", "")
+						}
+					}
+				}
+			})
 		}
 		// reversed scans: decrementing the last byte of the region start key must not wrap
 		kit.Instrs(upd, func(in ssa.Instruction) {
